@@ -235,6 +235,11 @@ func (s *Sent) wname(r *simrt.Rand, prefix string) string {
 // ptr: a user-space pointer, shown in hexadecimal.
 func (s *Sent) ptr(r *simrt.Rand) uint64 {
 	v := 0x7ff000000000 + uint64(r.Intn(1<<30))
+	if r.Intn(4) == 0 {
+		// the upper half of the address space (top bit set): kernel addresses, and whatever else
+		// an agent reports as a 64-bit value
+		v = []uint64{0xffff800000000000 + uint64(r.Intn(1<<30)), 0x8000000000000000, 0xffffffffffffffff, 0xfffff78000000000 + uint64(r.Intn(1<<20))}[r.Intn(4)]
+	}
 	s.Ints = append(s.Ints, v)
 	return v
 }
